@@ -138,6 +138,37 @@ class CallMixin:
             kv = self.coerce(k, d.ty.args[0], st).ts[0]
             conj = [smt.Eq(a, smt.Store(b, kv, smt.Select(a, kv))) for a, b in zip(d.ts, d0.ts)]
             return [(st, mk_bool(smt.And(*conj)))]
+        if n == "old_objects_keep":
+            # old_objects_keep("f", ...): every object allocated when the (verified) function was entered has the
+            # same f as in the old state.  As a callee's postcondition at a call site this is the sound weakening
+            # of the callee's own statement (objects allocated at the caller's entry were allocated at the callee's).
+            def body(r):
+                conj = []
+                for a_ in e.args:
+                    cur = self.heap_arr(st, a_.value)
+                    old = self.heap_arr(self.old_state, a_.value) if self.old_state is not None else cur
+                    conj += [smt.Eq(smt.Select(x, r), smt.Select(y, r)) for x, y in zip(cur.ts, old.ts)]
+                known = [self.alloc0(r)]
+                if not self.goal_mode:
+                    # at a call site the objects this activation created before the call existed at the callee's entry too
+                    known += [smt.Eq(r, n_) for n_ in (self.old_state.allocated if self.old_state is not None else ())]
+                return smt.Implies(smt.Or(*known), smt.And(*conj))
+            goal = self.goal_mode and self.polarity == 1
+            if goal:
+                sk = self.ctx.fresh("sk_obj", INT)
+                self.skolems.append(sk)
+                return [(st, mk_bool(body(sk)))]
+            self.qcount += 1
+            rn = "obj!q%d" % self.qcount
+            inner = body(T(rn, INT))
+            q = smt.Forall([(rn, INT)], inner)
+            self.ctx.qreg[q.s] = (rn, inner.s, INT)
+            self.ctx.qtag.setdefault(q.s, self.cur_clause)
+            # the receiver of the function under verification is the instance every proof needs
+            insts = [body(v.ts[0]) for k_, v in st.env.items() if k_ == "self" and isinstance(v, SV) and v.ty.kind == "ref"]
+            if not self.goal_mode:
+                insts += [body(n_) for n_ in (self.old_state.allocated if self.old_state is not None else ())]
+            return [(st, mk_bool(smt.And(q, *insts)))]
         if n == "unchanged_except":
             # unchanged_except("field", obj): the field differs from its old value at most at obj
             f = e.args[0].value
